@@ -113,19 +113,24 @@ def check(case, st):
     conts = list(gen.SPIN_CONTAINERS if spin else gen.BOOL_CONTAINERS) + ["dictperm", "dictrep"]
     if len(D0) >= 2:
         conts += ["PUSO-rev", "QUSO-rev"] if spin else ["PUBO-rev", "QUBO-rev"]     # same terms, opposite insertion order
+    # user-chosen enumeration through the documented set_mapping / set_reverse_mapping
+    conts += ["PUSO-setmap", "QUSO-setrev", "PCSO-setrev"] if spin else ["PUBO-setmap", "QUBO-setrev", "PCBO-setrev"]
     for cont_ in conts:
         is_rev = cont_.endswith("-rev")
-        cont = cont_[:-4] if is_rev else cont_
+        setmap = cont_.split("-")[1] if ("-set" in cont_) else None
+        cont = cont_.split("-")[0]
         if cont in gen.DEG2 and deg > 2:
             continue
         for sch in (gen.MATRIX_SCHEMES if cont in gen.MATRIX else gen.LABELLED_SCHEMES):
-            if is_rev and sch not in ("int", "str", "rstr"):
+            if (is_rev or setmap) and sch not in ("int", "str", "rstr"):
                 continue
             D = gen.relabel(D0, sch, N)
             if is_rev:
                 D = dict(reversed(list(D.items())))
             labels = gen.labels_for(sch, N)
             M = spell(D, cont, spin) if cont in ("dictperm", "dictrep") else gen.build(cont, D)
+            if setmap:
+                gen.permute_mapping(M, setmap)
             tsrc = rp.tt(D, labels, spin)
             before = snap(M)
             st.extra["models_built"] = st.extra.get("models_built", 0) + 1
@@ -250,6 +255,10 @@ def check(case, st):
             nbv = M.num_binary_variables
             if isinstance(mapping, Raised) or sorted(mapping.values()) != list(range(nbv)) or set(mapping) != {l for k in D for l in k}:
                 viol("mapping", "not-a-bijection", "mapping %r, variables %r" % (mapping, {l for k in D for l in k}))
+                continue
+            rmap, w = call(lambda: M.reverse_mapping)
+            if isinstance(rmap, Raised) or rmap != {i: l for l, i in mapping.items()}:
+                viol("reverse_mapping", "not-inverse%s" % ("-after-" + setmap if setmap else ""), "reverse_mapping %r is not the inverse of mapping %r" % (rmap, mapping))
                 continue
             ilabels = list(range(nbv))
             Dm = {tuple(mapping[l] for l in k): v for k, v in D.items()}
